@@ -36,7 +36,7 @@ def shape_key(case, results):
             return "trk-" + t[1] + ("-expired-uncollected" if any(f.startswith("expired-uncollected") for f in r.flags) else "")
     return "none"
 
-SOURCE_TIE = "Source-level tie by proof (Tie/Epoch, Tie/AutoWaste, Props/C03s): the collection countdown at the head of the four predict functions and set_auto_waste equal the model's awStep / setAutoWaste; EpochDb::baked, next_epoch, skip_epochs_for_scene, current_epoch_with_scene as regenerated from the source equal the model's expiry rule and epoch counters (one scene changes, by exactly 1 / n)."
+SOURCE_TIE = "Source-level tie by proof (Tie/Epoch, Tie/AutoWaste, Props/C03s): the collection countdown at the head of the four predict functions and set_auto_waste equal the model's awStep / setAutoWaste; EpochDb::baked, next_epoch, skip_epochs_for_scene, current_epoch_with_scene as regenerated from the source equal the model's expiry rule and epoch counters (one scene changes, by exactly 1 / n). Also by proof (Tie/Gc): the TrackerAPI default methods auto_waste, wasted, skip_epochs_for_scene and get_main_store_wasted, instantiated with the list store of the tracker model, are the model's collect, wastedOp and skip."
 LEVEL_TEXT = LEVEL_TEXT + " " + SOURCE_TIE
 TRUSTED_BASE = TRUSTED_BASE + ["translator/kernels.py + rustexpr.py (reader of the Rust subset, per-function tables) for the functions named in SOURCE_TIE; generated definitions are proof obligations (Tie modules) on every run"]
 TECHNIQUE = TECHNIQUE + "; model regenerated from the source by a translator for the functions of SOURCE_TIE, tied by proof"
